@@ -52,6 +52,76 @@ class Function:
         self.entry = self.blocks[0]
         self._dom = None; self._loops = None
         self.argnames = {int(k): v for k, v in d.get("argnames", {}).items()}
+        self._drop_redundant_phis()
+
+    def _drop_redundant_phis(self):
+        """a web of phis that only ever merges one outside value (`a = phi(x, b); b = phi(x, a)`, what load-PRE leaves behind) IS that
+        value: every use is redirected to it and the phis are removed (Braun et al., redundant phi SCCs).  No such web exists in the
+        plain mem2reg output; the rewrite keeps rules from seeing a loop-carried copy as a new quantity."""
+        phis = {i.id: i for b in self.blocks for i in b.insts if i.op == "phi" and i.id >= 0}
+        if not phis: return
+        repl = {}
+        # strongly connected components of the "phi uses phi" graph (Tarjan, iterative); an SCC with one outside operand is that operand
+        def resolve(v):
+            while v["k"] == "inst" and v["v"] in repl: v = repl[v["v"]]
+            return v
+        changed = True
+        while changed:
+            changed = False
+            live = {k: q for k, q in phis.items() if k not in repl}
+            succ = {k: [resolve(c["v"])["v"] for c in q["incoming"] if resolve(c["v"])["k"] == "inst" and resolve(c["v"])["v"] in live] for k, q in live.items()}
+            index = {}; low = {}; onst = set(); stack = []; sccs = []; n = [0]
+            for root in live:
+                if root in index: continue
+                work = [(root, 0)]
+                while work:
+                    v, pi = work.pop()
+                    if pi == 0:
+                        index[v] = low[v] = n[0]; n[0] += 1; stack.append(v); onst.add(v)
+                    rec = False
+                    for k2 in range(pi, len(succ[v])):
+                        w_ = succ[v][k2]
+                        if w_ not in index:
+                            work.append((v, k2 + 1)); work.append((w_, 0)); rec = True; break
+                        if w_ in onst: low[v] = min(low[v], index[w_])
+                    if rec: continue
+                    if low[v] == index[v]:
+                        comp = []
+                        while True:
+                            x = stack.pop(); onst.discard(x); comp.append(x)
+                            if x == v: break
+                        sccs.append(comp)
+                    if work:
+                        u = work[-1][0]; low[u] = min(low[u], low[v])
+            for comp in sccs:
+                cs = set(comp); outside = {}
+                for k in comp:
+                    for c in live[k]["incoming"]:
+                        v = resolve(c["v"])
+                        if v["k"] == "inst" and v["v"] in cs: continue
+                        outside[(v["k"], repr(v.get("v")))] = v
+                if len(outside) == 1:
+                    leaf = next(iter(outside.values()))
+                    if leaf["k"] in ("inst", "arg", "int", "null"):
+                        for k in comp: repl[k] = dict(leaf)
+                        changed = True
+        for k in list(repl): repl[k] = resolve(repl[k])
+        if not repl: return
+        def walk(x):
+            if isinstance(x, dict):
+                if x.get("k") == "inst" and x.get("v") in repl and "t" in x:
+                    l = repl[x["v"]]; x.clear(); x.update(l); return
+                for y in x.values(): walk(y)
+            elif isinstance(x, list):
+                for y in x: walk(y)
+        for b in self.blocks:
+            b.insts = [i for i in b.insts if not (i.op == "phi" and i.id in repl)]
+            for k, i in enumerate(b.insts):
+                i.idx = k
+                for key, val in i.d.items():
+                    if key in ("ops", "incoming", "var", "cases"): walk(val)
+        for pid in repl: self.imap.pop(pid, None)
+        self.redundant_phis = len(repl)
 
     def param_index(self, name):
         for k, v in self.argnames.items():
